@@ -39,7 +39,13 @@ use std::sync::Mutex;
 use std::sync::atomic::{AtomicBool, Ordering};
 
 use thiserror::Error;
+#[cfg(not(kani))]
 use tokio::sync::Notify;
+// Verification hook (inert unless built by `cargo kani`): the wake-up primitive is replaced by a
+// sequential contract model of tokio's `Notify`, so that this file is checked against the
+// documented contract of its dependency.
+#[cfg(kani)]
+use verif_kani::notify_model::Notify;
 
 /// State shared by the two endpoints of the channel.
 struct Shared<T> {
